@@ -1,2 +1,157 @@
+import PelModel.Clean
+import PelProofs.Clean
+/-
+  C12 — `--clean` never deletes a PEL whose decoded output was not completely written.
+  Statements quantify over every number of writes `n`, every fault plan and every prefix of the trace
+  (a process that dies has executed a prefix).
+-/
 namespace Pel.C12
+
+/-- ★ `--json --clean`: if a removal of the input appears anywhere in (a prefix of) the trace, then the PEL was decoded and
+    selected, cleaning was requested, and the output was opened, written completely (all `n` writes) and closed,
+    all without fault, strictly before the removal -/
+theorem json_remove_after_complete (d : DecodeResult) (n : Nat) (clean : Bool) (fault : Nat → Bool)
+    (pre : List (Ev × Bool)) (hpre : pre <+: cleanJsonTrace d n clean fault) (ok : Bool) (hrm : (Ev.removeIn, ok) ∈ pre) :
+    d = .doc ∧ clean = true ∧
+    pre = [(Ev.openOut, true)] ++ List.replicate n (Ev.write, true) ++ [(Ev.closeOut, true)] ++ [(Ev.removeIn, ok)] := by
+  cases d with
+  | doc =>
+    simp only [cleanJsonTrace] at hpre
+    cases clean with
+    | false =>
+      obtain ⟨t, ht⟩ := hpre
+      have hm : (Ev.removeIn, ok) ∈ runSteps (jsonPlan n false) 0 fault := by
+        rw [← ht]; exact List.mem_append_left _ hrm
+      rw [jsonPlan_false] at hm
+      exact absurd hm (runSteps_not_mem _ _ _ _ _ (jsonBody_no_remove n))
+    | true =>
+      rw [jsonPlan_true] at hpre
+      have := runSteps_prefix_remove _ (jsonBody_no_remove n) 0 fault pre hpre ok hrm
+      refine ⟨rfl, rfl, ?_⟩
+      rw [this]
+      simp [List.map_replicate]
+  | filtered =>
+    simp only [cleanJsonTrace, List.prefix_nil] at hpre
+    subst hpre; simp at hrm
+  | failed =>
+    simp only [cleanJsonTrace, List.prefix_nil] at hpre
+    subst hpre; simp at hrm
+
+/-- ★ `--file --clean`: a removal happens only after the document was printed and stdout flushed, without fault -/
+theorem file_remove_after_complete (d : DecodeResult) (clean : Bool) (fault : Nat → Bool)
+    (pre : List (Ev × Bool)) (hpre : pre <+: cleanFileTrace d clean fault) (ok : Bool) (hrm : (Ev.removeIn, ok) ∈ pre) :
+    d = .doc ∧ clean = true ∧ pre = [(Ev.print, true), (Ev.flushStdout, true), (Ev.removeIn, ok)] := by
+  cases d with
+  | doc =>
+    simp only [cleanFileTrace] at hpre
+    cases clean with
+    | false =>
+      obtain ⟨t, ht⟩ := hpre
+      have hm : (Ev.removeIn, ok) ∈ runSteps (filePlan false) 0 fault := by
+        rw [← ht]; exact List.mem_append_left _ hrm
+      exact absurd hm (runSteps_not_mem _ _ _ _ _ (by simp [filePlan]))
+    | true =>
+      have hplan : filePlan true = [Ev.print, Ev.flushStdout] ++ [Ev.removeIn] := by simp [filePlan]
+      rw [hplan] at hpre
+      have := runSteps_prefix_remove _ (by simp) 0 fault pre hpre ok hrm
+      refine ⟨rfl, rfl, ?_⟩
+      rw [this]
+      simp
+  | filtered =>
+    simp only [cleanFileTrace, List.prefix_nil] at hpre
+    subst hpre; simp at hrm
+  | failed =>
+    simp only [cleanFileTrace, List.prefix_nil] at hpre
+    subst hpre; simp at hrm
+
+/-- ★ if decoding fails, the PEL is filtered out, or opening / any write / closing the output faults, the input is
+    still present afterwards -/
+theorem json_input_kept (d : DecodeResult) (n : Nat) (clean : Bool) (fault : Nat → Bool)
+    (h : d ≠ .doc ∨ clean = false ∨ ∃ k, k ≤ n + 1 ∧ fault k = true) :
+    inputRemoved (cleanJsonTrace d n clean fault) = false := by
+  rw [inputRemoved_false_iff]
+  cases d with
+  | doc =>
+    simp only [cleanJsonTrace]
+    cases clean with
+    | false =>
+      rw [jsonPlan_false]
+      exact runSteps_not_mem _ _ _ _ _ (jsonBody_no_remove n)
+    | true =>
+      rcases h with h | h | ⟨k, hk, hf⟩
+      · exact absurd rfl h
+      · exact absurd h (by decide)
+      · rw [jsonPlan_true, runSteps_removed_iff _ (jsonBody_no_remove n), jsonBody_length]
+        intro hall
+        have := hall k (by omega)
+        rw [Nat.zero_add, hf] at this
+        exact absurd this (by decide)
+  | filtered => simp [cleanJsonTrace]
+  | failed => simp [cleanJsonTrace]
+
+theorem file_input_kept (d : DecodeResult) (clean : Bool) (fault : Nat → Bool)
+    (h : d ≠ .doc ∨ clean = false ∨ ∃ k, k ≤ 1 ∧ fault k = true) :
+    inputRemoved (cleanFileTrace d clean fault) = false := by
+  rw [inputRemoved_false_iff]
+  cases d with
+  | doc =>
+    simp only [cleanFileTrace]
+    cases clean with
+    | false =>
+      exact runSteps_not_mem _ _ _ _ _ (by simp [filePlan])
+    | true =>
+      rcases h with h | h | ⟨k, hk, hf⟩
+      · exact absurd rfl h
+      · exact absurd h (by decide)
+      · have hplan : filePlan true = [Ev.print, Ev.flushStdout] ++ [Ev.removeIn] := by simp [filePlan]
+        rw [hplan, runSteps_removed_iff _ (by simp)]
+        intro hall
+        have := hall k (by simpa using (by omega : k ≤ 2))
+        rw [Nat.zero_add, hf] at this
+        exact absurd this (by decide)
+  | filtered => simp [cleanFileTrace]
+  | failed => simp [cleanFileTrace]
+
+/-- exactly when nothing faults (including the removal itself) the input is removed -/
+theorem json_removed_iff (n : Nat) (fault : Nat → Bool) :
+    inputRemoved (cleanJsonTrace .doc n true fault) = true ↔ ∀ k, k ≤ n + 2 → fault k = false := by
+  rw [inputRemoved_iff]
+  simp only [cleanJsonTrace]
+  rw [jsonPlan_true, runSteps_removed_iff _ (jsonBody_no_remove n), jsonBody_length]
+  simp only [Nat.zero_add]
+
+/-- the procedures never touch the input in any other way: the only event that concerns the input is `removeIn` -/
+theorem only_remove_touches_input (d : DecodeResult) (n : Nat) (clean : Bool) (fault : Nat → Bool) :
+    ∀ e ∈ cleanJsonTrace d n clean fault, e.1 = Ev.openOut ∨ e.1 = Ev.write ∨ e.1 = Ev.closeOut ∨ e.1 = Ev.removeIn := by
+  intro e he
+  cases d with
+  | doc =>
+    simp only [cleanJsonTrace] at he
+    have := runSteps_fst_mem _ _ _ e he
+    cases clean with
+    | false =>
+      rw [jsonPlan_false] at this
+      simp only [List.mem_append, List.mem_singleton, List.mem_replicate] at this
+      rcases this with (h | h) | h
+      · exact Or.inl h
+      · exact Or.inr (Or.inl h.2)
+      · exact Or.inr (Or.inr (Or.inl h))
+    | true =>
+      rw [jsonPlan_true] at this
+      simp only [List.mem_append, List.mem_singleton, List.mem_replicate] at this
+      rcases this with ((h | h) | h) | h
+      · exact Or.inl h
+      · exact Or.inr (Or.inl h.2)
+      · exact Or.inr (Or.inr (Or.inl h))
+      · exact Or.inr (Or.inr (Or.inr h))
+  | filtered => simp [cleanJsonTrace] at he
+  | failed => simp [cleanJsonTrace] at he
+
+/-! Non-vacuity and the witness of the repaired defect: with the pre-fix order (`removeIn` before `closeOut`) a fault at
+    close leaves a trace with a successful removal and a failed close. -/
+example : cleanJsonTrace .doc 2 true (fun k => k == 3) =
+    [(Ev.openOut, true), (Ev.write, true), (Ev.write, true), (Ev.closeOut, false)] := by decide
+example : inputRemoved (runSteps ([Ev.openOut] ++ List.replicate 2 Ev.write ++ [Ev.removeIn, Ev.closeOut]) 0 (fun k => k == 4)) = true := by
+  decide
+
 end Pel.C12
